@@ -133,7 +133,7 @@ func (v *PacketDslFormattor) VisitPacketDefinition(ctx *gen.PacketDefinitionCont
 	for _, fieldCtx := range ctx.AllFieldDefinitionWithAttribute() {
 		if fc, ok := fieldCtx.(*gen.FieldDefinitionWithAttributeContext); ok {
 			formatted := v.VisitFieldDefinitionWithAttribute(fc).(string)
-			formattedDsl.WriteString(AddIndent4ln(formatted))
+			formattedDsl.WriteString(indentDsl4ln(formatted))
 		}
 	}
 
@@ -194,7 +194,7 @@ func (v *PacketDslFormattor) VisitOptionDefinition(ctx *gen.OptionDefinitionCont
 	formattedDsl.WriteString("options {\n")
 	for _, decl := range ctx.AllOptionDeclaration() {
 		if d, ok := decl.(*gen.OptionDeclarationContext); ok {
-			formattedDsl.WriteString(AddIndent4ln(v.VisitOptionDeclaration(d).(string)))
+			formattedDsl.WriteString(indentDsl4ln(v.VisitOptionDeclaration(d).(string)))
 		}
 	}
 	formattedDsl.WriteString("}")
@@ -274,7 +274,7 @@ func (v *PacketDslFormattor) VisitInerObjectField(ctx *gen.InerObjectFieldContex
 	// iterate over all field definitions
 	for _, decl := range inerObjectDeclaration.AllFieldDefinition() {
 		result := v.VisitFieldDefinition(decl).(string)
-		formattedDsl.WriteString(AddIndent4ln(result))
+		formattedDsl.WriteString(indentDsl4ln(result))
 	}
 
 	formattedDsl.WriteString("},")
@@ -291,10 +291,10 @@ func (v *PacketDslFormattor) VisitMetaDataDefinition(ctx *gen.MetaDataDefinition
 		switch c := decl.(type) {
 		case *gen.RefMetaDataDeclarationContext:
 			result := v.VisitRefMetaDataDeclaration(c).(string)
-			formattedDsl.WriteString(AddIndent4ln(result))
+			formattedDsl.WriteString(indentDsl4ln(result))
 		case *gen.MetaDataDeclarationContext:
 			result := v.VisitMetaDataDeclaration(c).(string)
-			formattedDsl.WriteString(AddIndent4ln(result))
+			formattedDsl.WriteString(indentDsl4ln(result))
 		default:
 			continue
 		}
@@ -378,7 +378,7 @@ func (v *PacketDslFormattor) VisitMatchFieldDeclaration(ctx *gen.MatchFieldDecla
 	for _, pairCtx := range ctx.AllMatchPair() {
 		lineComment := strings.TrimRight(v.getHiddenLeft(pairCtx.GetStart()), "\n")
 		if lineComment != "" {
-			formattedDsl.WriteString(AddIndent4ln(lineComment))
+			formattedDsl.WriteString(indentDsl4ln(lineComment))
 		}
 		key := ""
 		switch {
@@ -408,7 +408,7 @@ func (v *PacketDslFormattor) VisitMatchFieldDeclaration(ctx *gen.MatchFieldDecla
 		if lineComment != "" {
 			pair += " " + lineComment
 		}
-		formattedDsl.WriteString(AddIndent4ln(pair))
+		formattedDsl.WriteString(indentDsl4ln(pair))
 	}
 	formattedDsl.WriteString("}")
 	return formattedDsl.String()
@@ -443,5 +443,42 @@ func formatStringList(values []string, itemsPerLine int) string {
 			}
 		}
 	}
-	return "[\n" + AddIndent4ln(b.String()) + "]"
+	return "[\n" + indentDsl4ln(b.String()) + "]"
+}
+
+// indentDsl4ln indents formatted DSL by four spaces like AddIndent4ln, but leaves the continuation
+// lines of a documentation string (`...` may span lines) alone: they are content, not layout.
+func indentDsl4ln(s string) string {
+	const indent = "    "
+	var b strings.Builder
+	b.WriteString(indent)
+	inDoc, inString, inComment := false, false, false
+	for i := 0; i < len(s); i++ {
+		c := s[i]
+		b.WriteByte(c)
+		switch {
+		case inDoc:
+			inDoc = c != '`'
+		case inComment:
+			inComment = c != '\n'
+		case inString:
+			if c == '\\' && i+1 < len(s) {
+				i++
+				b.WriteByte(s[i])
+			} else if c == '"' || c == '\n' {
+				inString = false
+			}
+		case c == '`':
+			inDoc = true
+		case c == '"':
+			inString = true
+		case c == '/' && i+1 < len(s) && s[i+1] == '/':
+			inComment = true
+		}
+		if c == '\n' && !inDoc {
+			b.WriteString(indent)
+		}
+	}
+	b.WriteString("\n")
+	return b.String()
 }
